@@ -60,7 +60,16 @@ func runSolver(sd solverDef, file string, timeoutS int) solverAnswer {
 	_ = cmd.Run()
 	el := time.Since(t0).Seconds()
 	s := out.String()
-	first := strings.TrimSpace(strings.SplitN(s, "\n", 2)[0])
+	first := ""
+	for _, ln := range strings.Split(s, "\n") {
+		ln = strings.TrimSpace(ln)
+		if ln == "" || strings.HasPrefix(ln, "WARNING") {
+			// z3 reports unusable patterns on the output stream before the answer
+			continue
+		}
+		first = ln
+		break
+	}
 	res := "unknown"
 	switch {
 	case first == "sat", first == "unsat":
